@@ -21,3 +21,30 @@ fn c11_witness_hosts_entry_same_as_double_pipe_rule() {
     }
     assert_eq!(differ, 0);
 }
+
+/// OBL C11.witness.hosts_grid
+#[test]
+fn c11_witness_hosts_grid() {
+    // the same relation over a wider grid of host spellings (IDN, punycode, leading dot, underscores, IP literals, `www.` forms, mixed
+    // case, non-ASCII upper case) x three line shapes (bare, `IP host`, `IP<TAB>host # comment`) x a URL universe; only lines the
+    // hosts format accepts are entries
+    use adblock::lists::parse_filter;
+    let hosts = ["ads.example.com", "ADS.Example.COM", ".example.com", "bücher.example", "xn--bcher-kva.example", "a_b.example.com", "1.2.3.4", "www.example.com", "www.www.example.com",
+        "wwwx.example.com", "example.co.uk", "ads-1.example.com", "ads..example.com", "-ads.example.com", "www.com", "WWW.COM", "www.a", "éxample.com", "EXAMPLE.com", "ÉXAMPLE.com", "ß.example.com"];
+    let urls = ["https://ads.example.com/x", "https://example.com/x", "https://sub.ads.example.com/", "https://xn--bcher-kva.example/a", "https://a_b.example.com/", "https://1.2.3.4/x",
+        "https://www.example.com/", "https://www.www.example.com/", "https://wwwx.example.com/", "https://example.co.uk/", "https://x.example.co.uk/", "https://ads-1.example.com/", "https://www.com/",
+        "https://com/", "https://a/", "https://www.a/", "https://xn--xample-9ua.com/", "https://xn--zca.example.com/", "https://ss.example.com/", "https://xads.example.com/"];
+    let mut entries = 0;
+    for h in hosts {
+        for line in [h.to_string(), format!("0.0.0.0 {h}"), format!("127.0.0.1\t{h}  # c")] {
+            if parse_filter(&line, true, ParseOptions { format: FilterFormat::Hosts, ..Default::default() }).is_err() { continue; }
+            entries += 1;
+            for u in urls {
+                let a = blocked(&line, FilterFormat::Hosts, u);
+                let b = blocked(&format!("||{h}^"), FilterFormat::Standard, u);
+                assert_eq!(a, b, "hosts line {line:?} vs `||{h}^` on {u}: hosts {a}, standard {b}");
+            }
+        }
+    }
+    assert!(entries >= 45, "{entries}");
+}
